@@ -15,7 +15,6 @@ def carry (a : Seg) : List Point → Seg
     | some t => carry t ps
     | none => carry a ps
 
-def hasOn (l : List Point) : Bool := l.any Point.onCurve
 
 theorem retype_cons_on (a : Option Seg) (p : Point) (ps : List Point) (t : Seg) (h : p.seg = some t) :
     retype a (p :: ps) = { p with seg := a } :: retype (some t) ps := by
